@@ -53,7 +53,7 @@ def annotation(r, depth=0):
             parts.append('<xs:documentation%s>%s</xs:documentation>' % (r.choice(['', ' xml:lang="en"', ' source="urn:doc"']), esc_text('doc ' + ''.join(r.choice(LETTERS + ' <&é') for _ in range(r.randint(0, 20))))))
         else:
             parts.append('<xs:appinfo%s><x:info xmlns:x="urn:appinfo" k="%d">%s</x:info></xs:appinfo>' % (r.choice(['', ' source="urn:app"']), r.randint(0, 999), ''.join(r.choice(LETTERS) for _ in range(r.randint(0, 8)))))
-    return '<xs:annotation%s>%s</xs:annotation>' % (r.choice(['', ' id="an%d"' % r.randint(0, 10 ** 6)]), ''.join(parts))
+    return '<xs:annotation>%s</xs:annotation>' % ''.join(parts)
 
 
 # -----------------------------------------------------------------------------------------------------------------
@@ -663,6 +663,10 @@ class ST:
         return getattr(self.space, 'base', None) in ('ID',)
 
     def needs_context(self):
+        if isinstance(self.space, ListSpace):
+            return self.space.item.needs_context()
+        if isinstance(self.space, UnionSpace):
+            return any(m.needs_context() for m in self.space.members)
         return getattr(self.space, 'base', None) in ('ID', 'IDREF', 'ENTITY', 'QName', 'NOTATION')
 
 
@@ -1189,16 +1193,23 @@ class SchemaBuilder:
         if r.random() < 0.15 and e.fixed is None:
             e.nillable = True
 
-    def gen_particle(self, st, depth=0, top=True):
-        """st: per-complex-type state {used global elements, used groups, wildcard allowed}"""
+    def gen_particle(self, st, depth=0, top=True, rep=False):
+        """st: per-complex-type state {used global elements, used groups, wildcard allowed}.  rep: an enclosing group repeats,
+        then nothing inside may repeat (nested repetition of the same element violates unique particle attribution)"""
         r = self.r
         kind = r.choice(['sequence', 'sequence', 'choice'])
+        if top or r.random() < 0.5:
+            mn, mx = 1, 1
+        else:
+            mn, mx = r.choice([(0, 1), (1, None), (0, None), (1, 3)]) if not rep else (0, 1)
+        inner_rep = rep or mx != 1
+        occs = OCCS_EL if not inner_rep else [(1, 1), (1, 1), (0, 1)]
         kids = []
         for _ in range(r.randint(1, 4) if depth == 0 else r.randint(1, 3)):
             x = r.random()
             if x < 0.62:
-                mn, mx = r.choice(OCCS_EL)
-                kids.append(PEl(self.new_local(depth), mn, mx))
+                o = r.choice(occs)
+                kids.append(PEl(self.new_local(depth), o[0], o[1]))
             elif x < 0.72:
                 cands = [e for e in st['globals'] if id(e) not in st['used']]
                 if cands:
@@ -1206,25 +1217,24 @@ class SchemaBuilder:
                     st['used'].add(id(e))
                     for m in e.members:
                         st['used'].add(id(m))
-                    mn, mx = r.choice(OCCS_EL)
-                    kids.append(PEl(e, mn, mx, ref=True))
+                    o = r.choice(occs)
+                    kids.append(PEl(e, o[0], o[1], ref=True))
                     if e.schema is not self.s:
                         st['wild'] = False
             elif x < 0.84 and depth < 2:
-                kids.append(self.gen_particle(st, depth + 1, False))
-            elif x < 0.92:
+                kids.append(self.gen_particle(st, depth + 1, False, inner_rep))
+            elif x < 0.92 and not inner_rep:
                 cands = [g for g in self.s.groups if id(g) not in st['used'] and not g.has_all]
                 if cands:
                     g = r.choice(cands)
                     st['used'].add(id(g))
-                    kids.append(PGroupRef(g, *r.choice([(1, 1), (0, 1), (1, None), (0, None)])))
-            elif st['wild'] and self.s.elem_qualified and self.s.tns is not None and kind == 'sequence':
+                    kids.append(PGroupRef(g, *r.choice([(1, 1), (0, 1)])))
+            elif st['wild'] and self.s.elem_qualified and self.s.tns is not None and kind == 'sequence' and not inner_rep:
                 st['wild'] = False
                 pc = r.choice(['lax', 'skip', 'strict'])
                 kids.append(PAny(self.wildcard_ns(), pc, *r.choice([(0, 1), (0, None), (1, 1), (0, 2)]), ann=annotation(r) if r.random() < 0.2 else ''))
         if not kids:
             kids.append(PEl(self.new_local(depth), 1, 1))
-        mn, mx = (1, 1) if top or r.random() < 0.5 else r.choice([(0, 1), (1, None), (0, None), (1, 3)])
         return PGroup(kind, kids, mn, mx, ann=annotation(r) if r.random() < 0.1 else '')
 
     def new_state(self):
@@ -1334,7 +1344,9 @@ class SchemaBuilder:
             # open content: one required element, then a wildcard
             ns = r.choice(['##any', '##other', '##targetNamespace', '##local', FOREIGN_NS + ' ##targetNamespace'])
             p = PGroup('sequence', [PEl(self.new_local(2), 1, 1), PAny(ns, r.choice(['lax', 'skip']), 0, r.choice([None, 2, 1]))])
-            return CT(self.s, name, 'complex', particle=p, uses=self.own_uses(1), anyattr=self.any_attribute(), ann=ann, **flags)
+            c = CT(self.s, name, 'complex', particle=p, uses=self.own_uses(1), anyattr=self.any_attribute(), ann=ann, **flags)
+            c.has_all = True       # (not extendable: anything appended after the wildcard would be ambiguous)
+            return c
         st = self.new_state()
         if depth > 0:
             st['globals'] = []
@@ -1653,7 +1665,9 @@ def gen_element(el, ctx, depth=0):
             node.kids.append(simple_value(typ, ctx))
         return node
     ct = typ
-    if (ct.abstract or (ct.derived and r.random() < 0.2)) and ct.name:
+    if depth > 12:
+        return node       # hard stop for recursive type graphs (the instance is then probably invalid, which is fine)
+    if (ct.abstract or (ct.derived and r.random() < 0.2 and depth < 8)) and ct.name:
         cands = [d for d in all_derived(ct) if d.name and not d.abstract]
         if cands:
             ct = r.choice(cands)
@@ -2056,9 +2070,9 @@ class Dtd:
             spec = kind if kind in ('EMPTY', '(#PCDATA)', 'ANY') else ('(#PCDATA|%s)*' % '|'.join(m) if kind == 'mixed' else _dg.render_top(m))
             text.append('<!ELEMENT %s %s>' % (e, spec))
         for k, nname in enumerate(self.notations):
-            text.append('<!NOTATION %s %s>' % (nname, r.choice(['SYSTEM "%s.exe"' % nname, 'PUBLIC "-//X//%s"' % nname, 'PUBLIC "-//X//%s" "http://example.org/%s"' % (nname, nname)])))
-        for u in self.unparsed:
-            text.append('<!ENTITY %s %s NDATA %s>' % (u, r.choice(['SYSTEM "%s.gif"' % u, 'PUBLIC "-//P//%s" "%s.gif"' % (u, u)]), r.choice(self.notations)))
+            text.append('<!NOTATION %s %s>' % (nname, r.choice(['SYSTEM "%s.exe"' % nname, 'PUBLIC "-//X//N%d"' % k, 'PUBLIC "-//X//N%d" "http://example.org/%s"' % (k, nname)])))
+        for k, u in enumerate(self.unparsed):
+            text.append('<!ENTITY %s %s NDATA %s>' % (u, r.choice(['SYSTEM "%s.gif"' % u, 'PUBLIC "-//P//U%d" "%s.gif"' % (k, u)]), r.choice(self.notations)))
         for g, v in self.internal.items():
             text.append('<!ENTITY %s "%s">' % (g, v))
         if r.random() < 0.5:
